@@ -47,7 +47,7 @@ def check(run):
         if vlib.parse_violation(out):
             run.cov['drift'].append(dict(trace=os.path.basename(t), note='process level: %s' % vlib.parse_violation(out), line=vlib.last_l(out)))
             vlib.log('[DRIFT] process level: %s in %s' % (vlib.parse_violation(out), os.path.basename(t)))
-    if not run.violations and (pacc < 4 or pn - pacc < 4):
+    if not run.violations and (pacc < 2 or pn - pacc < 2):
         raise vlib.Infra('vacuous: %d configurations at process level, %d accepted by `config validate`' % (pn, pacc))
     run.cov['process_level'] = dict(configurations=pn, accepted_by_config_validate=pacc)
     # growth beyond the listed property (never a verdict): start-up code of internal/backend.go against Backend.tla -
